@@ -338,6 +338,15 @@ def generate(rng, tier):
     else:
         for _ in range(1500):
             yield ("stream", rng.choice(ENCS), (tuple(rng.choice(TABLE_KEYS)), tuple(rng.choice(TABLE_KEYS))))
+    # a key that is also a prefix of longer sequences (ESC, ESC [, ESC O, ...) followed, in the same read, by a long
+    # run of ordinary characters of the kind escape sequences are made of (digits, ';', '?', space ...): pasted or
+    # leaked control sequences the tables do not know must still come back losslessly, never as an error
+    growable = [k for k in TABLE_KEYS if bytes(k) in events.KEYMAP_PREFIXES]
+    tails = ["123456", "38;5;208m", "      ", "0;0;0;0;0;0", "?1049h", ":::::::", "12;34R", "1;2;3;4;5;6;7;8", "<=>?<=>?", "9" * 12]
+    for k in (growable if thorough else rng.sample(growable, min(len(growable), 12))):
+        for t in tails:
+            for enc in (ENCS if thorough else ["utf-8"]):
+                yield ("stream", enc, (tuple(k),) + tuple((ord(c),) for c in t))
     for k in TABLE_KEYS:                      # every table sequence alone (arrives whole, read ends)
         for enc in ENCS:
             yield ("stream", enc, (tuple(k),))
